@@ -1145,6 +1145,10 @@ Proof. reflexivity. Qed.
 Lemma insr_of_final st tgt src : s_insr (final_state st tgt src) = sql_inserted st (map snd tgt) src.
 Proof. reflexivity. Qed.
 
+Lemma map_snd_filter_flat {A B} (p : A * B -> bool) (l : list (A * B)) :
+  map snd (filter p l) = flat_map (fun it => if p it then [snd it] else []) l.
+Proof. induction l as [|x l IH]; cbn [filter map flat_map]; [reflexivity|]. destruct (p x); cbn [map app]; rewrite IH; reflexivity. Qed.
+
 Section MergeFinal.
   Variable st : msettings.
   Variable tgt : itable.
@@ -1214,7 +1218,6 @@ Section MergeFinal.
   Proof.
     intro OK. unfold r_stats_of, final_state, st_del, st_ins, st_upd, mstate0. cbn [s_nins s_nupd s_ndel].
     rewrite !N.add_0_l. f_equal; [f_equal|].
-    - reflexivity.
     - f_equal. unfold updates. rewrite flat_map_length_sum, map_map, filter_map_comm, map_length.
       apply count_pointwise. intros it Hit. rewrite map_length, (fate_ok it OK Hit). destruct (OK it Hit) as [L _].
       destruct (matches st src (snd it)) eqn:M.
@@ -1241,12 +1244,7 @@ Section MergeFinal.
       rewrite upd_of_final, insr_of_final.
       rewrite app_assoc. apply Permutation_app; [|apply Permutation_refl].
       rewrite flat_map_map.
-      rewrite (map_as_flat_map snd), (filter_as_flat_map _ tgt), flat_map_concat_map, <- flat_map_concat_map.
-      assert (E1 : flat_map (fun x => [snd x]) (flat_map (fun x => if negb (mem_addr (fst x) (s_del (final_state st tgt src))) then [x] else []) tgt)
-                   = flat_map (fun it => if negb (mem_addr (fst it) (s_del (final_state st tgt src))) then [snd it] else []) tgt).
-      { generalize (s_del (final_state st tgt src)). intro d. induction tgt as [|x l IH]; cbn [flat_map]; [reflexivity|].
-        rewrite flat_map_app, IH. destruct (negb (mem_addr (fst x) d)); reflexivity. }
-      rewrite E1. unfold updates. rewrite map_flat_map.
+      rewrite map_snd_filter_flat. unfold updates. rewrite map_flat_map.
       eapply Permutation_trans; [apply flat_map_app_pointwise|].
       erewrite flat_map_ext_in; [apply Permutation_refl|].
       intros it Hit. cbn beta. rewrite <- (kept_pointwise it OK Hit). f_equal.
@@ -1263,3 +1261,224 @@ Section MergeFinal.
       + destruct (hits st src (snd it)) as [|s [|s' ss]]; reflexivity.
   Qed.
 End MergeFinal.
+
+Lemma a_merge_unfold st tgt src :
+  a_merge st tgt src =
+    if negb (supported st) then inr EUnsupported
+    else if unzip_panics st && negb (is_nil (join_rows st (join_null_eq st) (join_kind st) tgt src)) then inr EPanic
+    else match run_rows st (join_rows st (join_null_eq st) (join_kind st) tgt src) with
+         | inr e => inr e
+         | inl s => result_of st tgt s
+         end.
+Proof.
+  unfold a_merge, result_of, r_stats_of. destruct (negb (supported st)); [reflexivity|].
+  destruct (unzip_panics st && _); [reflexivity|].
+  destruct (run_rows st _); [|reflexivity]. destruct (full_schema st); reflexivity.
+Qed.
+
+Lemma wf_settings_facts st : wf_settings st = true ->
+  m_on st <> [] /\ (join_null_eq st = true -> exists k, m_on st = [k]) /\ supported st = true.
+Proof.
+  unfold wf_settings. intro H.
+  apply andb_true_iff in H as [H Hsup]. apply andb_true_iff in H as [H Hidx]. apply andb_true_iff in H as [H Hne].
+  split; [|split].
+  - intro E. rewrite E in Hne. discriminate.
+  - intro NE. unfold join_null_eq, uses_index in NE. apply andb_true_iff in NE as [NE _]. apply andb_true_iff in NE as [_ I].
+    rewrite I in Hidx. cbn [negb orb] in Hidx. apply Nat.eqb_eq in Hidx.
+    destruct (m_on st) as [|k [|k' l]]; cbn [length] in Hidx; try discriminate. exists k. reflexivity.
+  - exact Hsup.
+Qed.
+
+Section MergeTheorem.
+  Variable st : msettings.
+  Variable tgt : itable.
+  Variable src : list row.
+  Hypothesis WF : wf_settings st = true.
+  Hypothesis ND : NoDup (map fst tgt).
+  Hypothesis K1 : Known_C12_null_key_source_rows_skipped st src = false.
+  Hypothesis K2 : Known_C12_null_key_target_rows_kept st (map snd tgt) = false.
+  Hypothesis K3 : Known_C12_fail_off_fast_path st = false.
+  Hypothesis K4 : Known_C12_update_if_partial_schema_panics st = false.
+
+  Lemma a_merge_runs :
+    a_merge st tgt src =
+      match run_rows st (join_rows st (join_null_eq st) (join_kind st) tgt src) with
+      | inr e => inr e
+      | inl s => result_of st tgt s
+      end.
+  Proof.
+    destruct (wf_settings_facts st WF) as [_ [_ Hsup]].
+    rewrite a_merge_unfold, Hsup. cbn [negb]. unfold Known_C12_update_if_partial_schema_panics in K4. rewrite K4. reflexivity.
+  Qed.
+
+  Lemma never_failed_unless_fail : m_wm st <> WmFail ->
+    existsb is_failed (map (sql_fate st src) (map snd tgt)) = false.
+  Proof.
+    intro NF. rewrite map_map, existsb_map. apply existsb_all_false. intros it _. rewrite sql_fate_char.
+    destruct (matches st src (snd it)); [destruct (nsdel st (snd it)); reflexivity|].
+    destruct (m_wm st); try congruence; destruct (hits st src (snd it)) as [|s [|s' ss]]; reflexivity.
+  Qed.
+
+  Theorem merge_is_sql_merge : mres_equiv (a_merge st tgt src) (sql_merge st (map snd tgt) src).
+  Proof.
+    destruct (wf_settings_facts st WF) as [Hon [Hsingle Hsup]].
+    rewrite a_merge_runs.
+    assert (Cases : m_wm st = WmFail \/ m_wm st <> WmFail) by (destruct (m_wm st); [right|right|right|left]; congruence).
+    destruct Cases as [F|NF].
+    - (* WhenMatched::Fail, on the fast path *)
+      rewrite (run_rows_fail st tgt src Hon Hsingle Hsup K1 K2 K3 F).
+      destruct (forallb (fun it => is_nil (hits st src (snd it))) tgt) eqn:AN.
+      + apply (result_ok st tgt src Hsup ND). intros it Hit.
+        rewrite forallb_forall in AN. specialize (AN it Hit). apply is_nil_true in AN. rewrite AN. cbn [length]. split; [lia|reflexivity].
+      + unfold sql_merge.
+        assert (E : existsb is_failed (map (sql_fate st src) (map snd tgt)) = true).
+        { rewrite map_map, existsb_map.
+          assert (X : existsb (fun it => negb (is_nil (hits st src (snd it)))) tgt = true).
+          { destruct (existsb (fun it => negb (is_nil (hits st src (snd it)))) tgt) eqn:X; [reflexivity|].
+            assert (Y : forallb (fun it => is_nil (hits st src (snd it))) tgt = true).
+            { apply forallb_forall. intros it Hit. destruct (is_nil (hits st src (snd it))) eqn:Z; [reflexivity|].
+              assert (T : existsb (fun it => negb (is_nil (hits st src (snd it)))) tgt = true).
+              { apply existsb_exists. exists it. rewrite Z. auto. }
+              congruence. }
+            congruence. }
+          apply existsb_exists in X as [it [Hit X]]. apply existsb_exists. exists it. split; [exact Hit|].
+          rewrite sql_fate_char. rewrite (fail_hits st src (snd it) F) in X.
+          destruct (matches st src (snd it)); [discriminate X|]. rewrite F. reflexivity. }
+        rewrite E. reflexivity.
+    - rewrite (run_rows_not_fail st tgt src Hon Hsingle Hsup K1 K2 K3 NF).
+      rewrite (dupfree_updates st src tgt [] ND) by (intros it _ []).
+      destruct (existsb (fun it => Nat.leb 2 (length (hits st src (snd it)))) tgt) eqn:AMB; cbn [negb].
+      + unfold sql_merge. rewrite (never_failed_unless_fail NF).
+        assert (E : existsb is_amb (map (sql_fate st src) (map snd tgt)) = true).
+        { rewrite map_map, existsb_map. apply existsb_exists in AMB as [it [Hit L]]. apply existsb_exists. exists it.
+          split; [exact Hit|]. rewrite sql_fate_char.
+          destruct (matches st src (snd it)) eqn:M.
+          - rewrite (hits_nil_of_matches_nil st src (snd it) M) in L. discriminate L.
+          - destruct (m_wm st); try congruence; destruct (hits st src (snd it)) as [|s [|s' ss]]; try discriminate L; reflexivity. }
+        rewrite E. reflexivity.
+      + apply (result_ok st tgt src Hsup ND). intros it Hit. split; [|intro; contradiction].
+        destruct (Nat.leb 2 (length (hits st src (snd it)))) eqn:L.
+        * assert (T : existsb (fun it => Nat.leb 2 (length (hits st src (snd it)))) tgt = true) by (apply existsb_exists; exists it; auto).
+          congruence.
+        * apply Nat.leb_gt in L. lia.
+  Qed.
+End MergeTheorem.
+
+(* ================================================================== MERGE: the concrete side *)
+Lemma live_map_slots (g : addr -> row -> option row) fi f : forall o,
+  live (map_slots g fi o f)
+  = flat_map (fun it => match g (fst it) (snd it) with Some r => [r] | None => [] end) (number_slots fi o f).
+Proof.
+  induction f as [|[r|] f IH]; intro o; cbn [map_slots number_slots live flat_map]; [reflexivity| |].
+  - fold (live (map_slots g fi (S o) f)). rewrite IH. cbn [fst snd]. reflexivity.
+  - fold (live (map_slots g fi (S o) f)). rewrite IH. reflexivity.
+Qed.
+
+Lemma live_number_slots fi f : forall o, live f = map snd (number_slots fi o f).
+Proof.
+  induction f as [|[r|] f IH]; intro o; cbn [number_slots live flat_map map]; [reflexivity| |].
+  - fold (live f). rewrite (IH (S o)). reflexivity.
+  - fold (live f). apply IH.
+Qed.
+
+Lemma abs_arows_from ct : forall fi, abs ct = map snd (arows_from fi ct).
+Proof.
+  induction ct as [|f ct IH]; intro fi; [reflexivity|].
+  unfold abs in *. cbn [flat_map arows_from]. rewrite map_app, <- (IH (S fi)), <- (live_number_slots fi f 0). reflexivity.
+Qed.
+
+Lemma abs_arows ct : map snd (arows ct) = abs ct.
+Proof. symmetry. apply abs_arows_from. Qed.
+
+Lemma abs_map_frags_delete del ct : forall fi,
+  abs (map_frags (fun fi f =>
+         if existsb (fun x => mem_addr (fst x) del) (number_slots fi O f)
+         then let f' := map_slots (fun a r => if mem_addr a del then None else Some r) fi O f in
+              if forallb is_none f' then [] else [f']
+         else [f]) fi ct)
+  = map snd (filter (fun it => negb (mem_addr (fst it) del)) (arows_from fi ct)).
+Proof.
+  induction ct as [|f ct IH]; intro fi; [reflexivity|].
+  cbn [map_frags arows_from]. rewrite abs_app, filter_app, map_app, IH. f_equal.
+  assert (L : live (map_slots (fun a r => if mem_addr a del then None else Some r) fi 0 f)
+              = map snd (filter (fun it => negb (mem_addr (fst it) del)) (number_slots fi 0 f))).
+  { rewrite live_map_slots, map_snd_filter_flat. apply flat_map_ext_in. intros it _. destruct (mem_addr (fst it) del); reflexivity. }
+  destruct (existsb (fun x => mem_addr (fst x) del) (number_slots fi 0 f)) eqn:E.
+  - cbn zeta. destruct (forallb is_none _) eqn:F.
+    + apply live_all_none in F. rewrite L in F. rewrite F. reflexivity.
+    + unfold abs. cbn [flat_map]. rewrite app_nil_r. exact L.
+  - unfold abs. cbn [flat_map]. rewrite app_nil_r.
+    rewrite (filter_negb_all (fun x => mem_addr (fst x) del)) by exact E. apply live_number_slots.
+Qed.
+
+Lemma abs_c_delete_addrs del ct :
+  abs (c_delete_addrs del ct) = map snd (filter (fun it => negb (mem_addr (fst it) del)) (arows ct)).
+Proof. apply abs_map_frags_delete. Qed.
+
+Lemma abs_map_frags_rewrite (G : addr -> row -> row) ct : forall fi,
+  abs (map_frags (fun fi f => [map_slots (fun a r => Some (G a r)) fi O f]) fi ct)
+  = map (fun it => G (fst it) (snd it)) (arows_from fi ct).
+Proof.
+  induction ct as [|f ct IH]; intro fi; [reflexivity|].
+  cbn [map_frags arows_from]. rewrite abs_app, map_app, IH. f_equal.
+  unfold abs. cbn [flat_map]. rewrite app_nil_r, live_map_slots, map_as_flat_map. reflexivity.
+Qed.
+
+(* addresses of the live slots are pairwise different *)
+Lemma number_slots_addr fi f : forall o a, In a (map fst (number_slots fi o f)) -> fst a = fi /\ (o <= snd a)%nat.
+Proof.
+  induction f as [|[r|] f IH]; intros o a H; cbn [number_slots map] in H; [destruct H| |].
+  - destruct H as [<-|H]; [cbn; split; [reflexivity|lia]|]. destruct (IH (S o) a H). split; [assumption|lia].
+  - destruct (IH (S o) a H). split; [assumption|lia].
+Qed.
+
+Lemma number_slots_nodup fi f : forall o, NoDup (map fst (number_slots fi o f)).
+Proof.
+  induction f as [|[r|] f IH]; intro o; cbn [number_slots map]; [constructor| |apply IH].
+  constructor; [|apply IH]. intro H. destruct (number_slots_addr fi f (S o) _ H) as [_ L]. cbn [snd] in L. lia.
+Qed.
+
+Lemma arows_from_addr ct : forall fi a, In a (map fst (arows_from fi ct)) -> (fi <= fst a)%nat.
+Proof.
+  induction ct as [|f ct IH]; intros fi a H; cbn [arows_from map] in H; [destruct H|].
+  rewrite map_app, in_app_iff in H. destruct H as [H|H].
+  - destruct (number_slots_addr fi f 0 a H) as [E _]. lia.
+  - specialize (IH (S fi) a H). lia.
+Qed.
+
+Lemma NoDup_app' {A} (l1 l2 : list A) :
+  NoDup l1 -> NoDup l2 -> (forall x, In x l1 -> ~ In x l2) -> NoDup (l1 ++ l2).
+Proof.
+  induction l1 as [|x l1 IH]; intros N1 N2 D; [exact N2|]. inversion N1 as [|? ? Hx N1']. subst. cbn [app]. constructor.
+  - rewrite in_app_iff. intros [H|H]; [exact (Hx H)|]. apply (D x (or_introl eq_refl) H).
+  - apply IH; [exact N1'|exact N2|]. intros y Hy. apply D. right. exact Hy.
+Qed.
+
+Lemma arows_nodup_from ct : forall fi, NoDup (map fst (arows_from fi ct)).
+Proof.
+  induction ct as [|f ct IH]; intro fi; cbn [arows_from map]; [constructor|].
+  rewrite map_app. apply NoDup_app'; [apply number_slots_nodup|apply IH|].
+  intros a H1 H2. destruct (number_slots_addr fi f 0 a H1) as [E _]. pose proof (arows_from_addr ct (S fi) a H2) as L.
+  rewrite E in L. exact (Nat.nle_succ_diag_l _ L).
+Qed.
+
+Lemma arows_nodup ct : NoDup (map fst (arows ct)).
+Proof. apply arows_nodup_from. Qed.
+
+(* c_merge computes, on fragments and deletion vectors, the table a_merge describes *)
+Lemma c_merge_abs st ct src :
+  match c_merge st ct src, a_merge st (arows ct) src with
+  | inl ct', inl r => abs ct' = r_rows r
+  | inr e, inr e' => e = e'
+  | _, _ => False
+  end.
+Proof.
+  unfold c_merge, a_merge. destruct (negb (supported st)); [reflexivity|].
+  destruct (unzip_panics st && _); [reflexivity|].
+  destruct (run_rows st _) as [s|e]; [|reflexivity].
+  destruct (full_schema st).
+  - cbn [r_rows]. rewrite abs_app, new_frag_abs, abs_c_delete_addrs. reflexivity.
+  - cbn [r_rows]. rewrite abs_app, new_frag_abs. f_equal. unfold arows.
+    rewrite (abs_map_frags_rewrite (fun a r => match find_upd a (s_upd s) with Some u => upd_row st u r | None => r end)).
+    + reflexivity.
+Qed.
